@@ -2,8 +2,49 @@
    ONLY statements: each theorem is closed by `exact` of a lemma proved elsewhere and followed by Print Assumptions. *)
 From Coq Require Import ZArith NArith List Bool Lia Permutation SpecFloat.
 Import ListNotations.
-Require Import Base Float Strings Builtins Interp Machine Spec Refine2 RunG Eq Order Arith PowBool LinkArith LinkKinds Complex.
+Require Import Base Strings Builtins Numerals Float Interp Machine Spec Refine2 RunG Eq Order Arith PowBool LinkArith LinkKinds Complex.
 Open Scope Z_scope.
+(* numeric conversion of TEXT (ㅈㅅ of a string, any base): an accepted numeral denotes what its digits denote with the underscores taken out *)
+Theorem underscores_are_ignored b :
+  forall l a st v, scan b l a st = Some v -> parse_digits b (no_underscores l) a = Some v.
+Proof. exact (Numerals.underscores_are_ignored b). Qed.
+Print Assumptions underscores_are_ignored.
+
+Theorem underscore_never_first b r a :
+  scan b (95%N :: r) a 0%nat = None.
+Proof. exact (Numerals.underscore_never_first b r a). Qed.
+Print Assumptions underscore_never_first.
+
+Theorem underscore_never_doubled b :
+  forall l r a st, scan b (l ++ 95%N :: 95%N :: r) a st = None.
+Proof. exact (Numerals.underscore_never_doubled b). Qed.
+Print Assumptions underscore_never_doubled.
+
+(* underscores are accepted only singly and between digits (or right after a prefix) *)
+Theorem underscore_never_last b :
+  forall l a st, scan b (l ++ [95%N]) a st = None.
+Proof. exact (Numerals.underscore_never_last b). Qed.
+Print Assumptions underscore_never_last.
+
+Theorem no_digits_no_number b a st :
+  st <> 1%nat -> scan b [] a st = None.
+Proof. exact (Numerals.no_digits_no_number b a st). Qed.
+Print Assumptions no_digits_no_number.
+
+(* base 0: the prefix 0x / 0o / 0b chooses the base *)
+Theorem base_zero_prefix d r :
+  parse_unsigned0 (48 :: 120 :: d :: r)%N = scan 16 (d :: r) 0 3%nat /\ parse_unsigned0 (48 :: 111 :: d :: r)%N = scan 8 (d :: r) 0 3%nat
+  /\ parse_unsigned0 (48 :: 98 :: d :: r)%N = scan 2 (d :: r) 0 3%nat.
+Proof. exact (Numerals.base_zero_prefix d r). Qed.
+Print Assumptions base_zero_prefix.
+
+(* base 0 without a prefix: decimal, a leading zero only for zero itself *)
+Theorem base_zero_leading_zero c r n :
+  has_prefix 16 (48%N :: c :: r) = false -> has_prefix 8 (48%N :: c :: r) = false -> has_prefix 2 (48%N :: c :: r) = false ->
+  parse_unsigned0 (48%N :: c :: r) = Some n -> n = 0.
+Proof. exact (Numerals.base_zero_leading_zero c r n). Qed.
+Print Assumptions base_zero_leading_zero.
+
 (* ㅈ decides the order of the EXACT values of finite reals - integers of any size, doubles in canonical form, mixed freely (sval = value * 2^1074, an integer) *)
 Theorem lt_is_value_order a b :
   finite_real a -> finite_real b -> (lt_val a b = true <-> sval a < sval b).
